@@ -6,7 +6,10 @@ real stackscope.extract() and abstract the resulting Stack into the vocabulary o
 Descriptor grammar (all JSON):
   case := {"root": frm, "mode": "susp"|"run", "rk": "coro"|"gen"}
   frm  := {"ws": [wth], "tail": ["stop"] | ["deleg", frm] | ["exit", wth]}
-  wth  := {"a": async?, "n": named?, "m": mgr}
+  wth  := {"a": async?, "n": named?, "m": mgr, "exc": null | "except" | "finally"}
+          ("exc": only on the wth of an ["exit", wth] tail: the with-block is left by an exception raised in its
+           body (contextlib then drives a generator-based manager with throw()/athrow()); the manager's
+           generator runs its cleanup in an except clause (exception swallowed) or a finally clause)
   mgr  := {"t": "plain", "a": async?, "f": falsy?}
         | {"t": "gen", "a": async?, "f": falsy?, "body": frm, "u": unentered?}
           ("u": only as the manager of push(manager) / push_async_exit(manager): the manager object is
@@ -19,6 +22,7 @@ Descriptor grammar (all JSON):
 """
 import contextlib
 import functools
+import json
 import re
 import threading
 import types
@@ -64,6 +68,10 @@ SYNC_KINDS = KINDS[:5]
 MGR_KINDS = ("enter", "pushmgr", "entera", "pushamgr")
 METH_KINDS = ("pushmeth", "pushameth")
 F10_KINDS = ("pushmgr", "pushamgr")
+
+
+class Boom(Exception):
+    """the exception by which with-blocks are left on the exceptional route"""
 
 
 @types.coroutine
@@ -189,6 +197,8 @@ class Env:
         self.names = {}        # manager index -> as-variable name
         self.plan = desc.get("plan", "single")
         self.unwinding = False
+        self.Boom = Boom
+        self.any_exc = '"exc": "' in json.dumps(desc)
         self.fault = False
         self.signal_obj = None
         self.signalled = False
@@ -202,25 +212,27 @@ class Env:
         """assign manager indices / frame ids (pre-order) and generate the module source"""
         self.src = []
         self.nfrm = 0
-        self._num_frm(self.desc["root"], self.desc["rk"], on_path=True, body=False)
+        self._num_frm(self.desc["root"], self.desc["rk"], on_path=True, body=False, root=True)
         return "\n".join(self.src)
 
-    def _num_mgr(self, m, act=False):
+    def _num_mgr(self, m, act=False, exc=None):
+        """exc: the manager is on the observed path and is exited by an exception (flavour of its cleanup)"""
         m["_i"] = len(self.mnodes)
         m["_act"] = act
         self.mnodes.append(m)
         if m["t"] == "gen":
-            self._num_frm(m["body"], "agen" if m["a"] else "gen", on_path=act, body=True, unentered=bool(m.get("u")))
+            self._num_frm(m["body"], "agen" if m["a"] else "gen", on_path=act, body=True, unentered=bool(m.get("u")),
+                          resumed=exc if act else None)
         elif m["t"] == "stack":
             for c in m["cbs"]:
                 if c.get("m") is not None:
                     self._num_mgr(c["m"])
             if m.get("cur") is not None and m["cur"].get("m") is not None:
-                self._num_mgr(m["cur"]["m"], act=True)
+                self._num_mgr(m["cur"]["m"], act=True, exc=exc)
             if m.get("late") is not None and m["late"].get("m") is not None:
                 self._num_mgr(m["late"]["m"])
 
-    def _num_frm(self, f, fk, on_path, body, unentered=False):
+    def _num_frm(self, f, fk, on_path, body, unentered=False, resumed=None, root=False):
         f["_id"] = 10 + self.nfrm
         f["_fk"] = fk
         self.nfrm += 1
@@ -236,13 +248,20 @@ class Env:
         if fk == "fn":
             assert f["tail"][0] == "stop" and not body
         ind = 1
+        guard = root and self.any_exc
+        if guard:
+            lines.append("    try:")
+            ind = 2
         ws = list(f["ws"])
         tail = f["tail"]
+        exit_exc = None
         if tail[0] == "exit":
             ws = ws + [tail[1]]
+            # a body resumed by throw() passes the exception on to the with-block it is inside of
+            exit_exc = tail[1].get("exc") or resumed
         for j, w in enumerate(ws):
             act = tail[0] == "exit" and j == len(ws) - 1
-            self._num_mgr(w["m"], act=act)
+            self._num_mgr(w["m"], act=act, exc=exit_exc if act else None)
             i = w["m"]["_i"]
             if w["a"]:
                 assert fk in ("coro", "agen"), "async with in a sync frame"
@@ -267,9 +286,18 @@ class Env:
                     raise AssertionError("a manager in its body cannot be exiting")
                 self.src.append("\n".join(lines))
                 return
-            lines.append(pad + "yield")
+            if resumed and tail[0] != "exit":
+                # cleanup of a manager that is exited by an exception
+                lines.append(pad + "try:")
+                lines.append(pad + "    yield")
+                lines.append(pad + ("except E.Boom:" if resumed == "except" else "finally:"))
+                pad += "    "
+            else:
+                lines.append(pad + "yield")
         if tail[0] == "exit":
-            if not body:
+            if exit_exc and not (body and resumed):
+                lines.append(pad + "raise E.Boom()")
+            elif not body:
                 lines.append(pad + "pass")
         elif tail[0] == "stop":
             if fk == "fn":
@@ -285,6 +313,9 @@ class Env:
             sub_fk = "gen" if fk == "gen" else "coro"
             self._num_frm(tail[1], sub_fk, on_path=True, body=False)
             lines.append(pad + ("yield from" if fk == "gen" else "await") + " f%d(E)" % tail[1]["_id"])
+        if guard:
+            lines.append("    except E.Boom:")
+            lines.append("        pass")
         if fk == "gen" and not body:
             lines.append("    return")
             lines.append("    yield")
@@ -607,6 +638,8 @@ def abstract_stack(env, stack, notes):
     out = []
     if stack.error is not None:
         notes.append("stack error: %r" % (stack.error,))
+    if stack.leaf is not None:
+        notes.append("frame series ends in a leaf that was not unwrapped: %s" % type(stack.leaf).__name__)
     for fr in stack.frames:
         cid = env.codes.get(fr.pyframe.f_code)
         if cid is None:
